@@ -412,6 +412,22 @@ def edge_grid_without_edge_nodes(draw):
     return case
 
 
+@st.composite
+def one_based_meshes_from_file(draw):
+    """One-based meshes whose tables use 0 as the fill value (what Fortran-side writers do), held
+    the way a file gives them: tables decoded to floats, the fill value in the encoding."""
+    case = draw(cases())
+    enc = draw(S.ugrid_encoding(supply=draw(st.sampled_from([["edge_node", "face_edge"],
+                                                             ["edge_node", "face_edge", "edge_face", "face_face"]]))))
+    enc.update({"start_index": 1, "fill": "int", "fill_value": 0, "pad_columns": draw(st.sampled_from([0, 1, 1]))})
+    spec = draw(S.dataset_spec(convs=["ugrid"], max_vars=3, min_vars=1, max_extra=1,
+                               modes=("decoded", "file", "netcdf"), geom_kwargs={"enc": enc}))
+    case["spec"] = spec
+    return case
+
+
 SUBS = [Sub("selection", strategy, check_case, quick=200, thorough=1200),
+        Sub("one_based_meshes_from_file", lambda tier: one_based_meshes_from_file(), check_case,
+            quick=25, thorough=150),
         Sub("edge_grid_without_edge_nodes", lambda tier: edge_grid_without_edge_nodes(), check_case,
             quick=25, thorough=150)]
